@@ -122,3 +122,23 @@ def purity(an: Analysis, rep, rule: str, entries, versions=((3, 10),)):
                             f"{m['kind']} on a module-level object (created at {bad[0][1][0]}:{bad[0][1][1]}" + ") that survives the call: later calls see state left by earlier ones"
                             if bad[0][0] == "obj" else f"{m['kind']} on {bad[0][0]} {bad[0][1]}", config=entry)
     rep.add(rule, "closure keeps no state between calls", True, "code_data/", f"{n_fn} function activations in the closures of {list(entries)} examined", nontrivial=False)
+
+
+class SharedRules:
+    """Proxy that files the obligations of another property's rule functions under one alias rule of this property."""
+
+    def __init__(self, rep, alias: str, doc: str):
+        self._rep, self._alias = rep, alias
+        rep.rule(alias, doc, 1)
+
+    def rule(self, rid, doc, min_instances=1):
+        pass
+
+    def add(self, rule, construct, ok, where, detail, **kw):
+        return self._rep.add(self._alias, f"[{rule}] {construct}", ok, where, detail, **kw)
+
+    def run(self, fn, *args, **kw):
+        return self._rep.run(fn, *args, **kw)
+
+    def __getattr__(self, name):
+        return getattr(self._rep, name)
